@@ -105,7 +105,7 @@ pub fn def() -> PropDef {
     PropDef {
         id: "C02",
         level: "exploration",
-        rule: "histories (namespace, content, metadata and stream-handle ops, buffer sizes default/1024/4096, both versions); at every op boundary where no handle holds unflushed bytes the raw backend bytes (no flush, no into_inner) are opened in permissive and strict mode and their full dump compared with the model; every 4th clean boundary after a mutation the reopened object replaces the live one (alternating strict/permissive) and the history continues on it. Scenario steps: a version-4 file grown past 4 GiB by the library on a sparse backend (raw bytes judged by the checker and reopened in both modes), the 32.4 MB library-written file (110th, 237th, 364th and 491st FAT sector: four DIFAT sectors) and the directory slot sweep (remove + create on every slot of a 3-sector directory, V3 and V4, checker and reopen in both modes after every step). Non-trivial = a replacement happened after an op that changed a header counter or the file length, and at least one more mutation ran on the reopened object; distinct = distinct case JSON.",
+        rule: "histories (namespace, content, metadata and stream-handle ops, buffer sizes default/1024/4096, both versions); at every op boundary where no handle holds unflushed bytes the raw backend bytes (no flush, no into_inner) are opened in permissive and strict mode and their full dump compared with the model; every 4th clean boundary after a mutation the reopened object replaces the live one (alternating strict/permissive) and the history continues on it. Scenario steps: a version-4 file grown past 4 GiB by the library on a sparse backend (raw bytes judged by the checker and reopened in both modes), the 32.4 MB library-written file (110th, 237th, 364th and 491st FAT sector: four DIFAT sectors) and the directory slot sweep (remove + create on every slot of a 3-sector directory, V3 and V4, checker and reopen in both modes after every step). Non-trivial = a replacement happened after an op that changed a header counter or the file length, and at least one more mutation ran on the reopened object; distinct = distinct case JSON. Thorough tier: libFuzzer campaign fz_hist over byte-encoded histories (16-byte record per op) with this same runner and oracle.",
         assumptions: &["'possibly dirty' is tracked by the harness: from a write through a handle until its next successful flush, length-changing set_len or close", "abstract model as in C01"],
         quick_cases: 1500,
         thorough_cases: 20000,
